@@ -490,6 +490,17 @@ func matryerCalls(c *Ctx, p *TPath, m mfunc, fail func(rule, key, what string, p
 		switch y := x.(type) {
 		case *ast.AssignStmt:
 			for i, r := range y.Rhs {
+				// a copy of the entry, `calls = append(calls, <entry>...)` into the local declared without a value,
+				// holds the same records as the entry itself
+				if ap, isCall := ast.Unparen(r).(*ast.CallExpr); isCall && len(ap.Args) == 2 && ap.Ellipsis.IsValid() && len(y.Lhs) == len(y.Rhs) {
+					if fid, isID := ap.Fun.(*ast.Ident); isID && fid.Name == "append" {
+						a0, ok0 := ast.Unparen(ap.Args[0]).(*ast.Ident)
+						l0, okl := y.Lhs[i].(*ast.Ident)
+						if ok0 && okl && p.Info.Uses[a0] != nil && p.Info.Uses[a0] == p.Info.Uses[l0] && declaredWithoutValue(m.fd.Body, p.Info, p.Info.Uses[a0]) {
+							r = ap.Args[1]
+						}
+					}
+				}
 				if el, ok := p.logEntryElem(r, m); ok {
 					n++
 					if el != m.elem {
@@ -598,4 +609,27 @@ func sameFunc(a, b types.Object) bool {
 	fa, ok1 := a.(*types.Func)
 	fb, ok2 := b.(*types.Func)
 	return ok1 && ok2 && fa.Origin() == fb.Origin()
+}
+
+// declaredWithoutValue: obj is declared in body by `var x T` (no initial value) and assigned exactly once.
+func declaredWithoutValue(body *ast.BlockStmt, info *types.Info, obj types.Object) bool {
+	decl, assigns := false, 0
+	ast.Inspect(body, func(n ast.Node) bool {
+		switch x := n.(type) {
+		case *ast.ValueSpec:
+			for _, nm := range x.Names {
+				if info.Defs[nm] == obj && len(x.Values) == 0 {
+					decl = true
+				}
+			}
+		case *ast.AssignStmt:
+			for _, l := range x.Lhs {
+				if id, ok := ast.Unparen(l).(*ast.Ident); ok && info.Uses[id] == obj {
+					assigns++
+				}
+			}
+		}
+		return true
+	})
+	return decl && assigns == 1
 }
